@@ -18,7 +18,7 @@ func C18(e *Env) {
 	run.Rule = "cases: (tree, pair of opens) — for random trees (C07 generator, both modes) the image of the unchanged directory is obtained by successive library opens, opens on different connections, 4..16 concurrent opens through a race-built server, and make-iso; every pair must have equal announced size and equal bytes outside exactly {PVD/SVD creation+modification timestamps (bytes 813..846 of sectors 16 and 17), PS3 sector 1 bytes 64..511}; non-trivial = distinct (tree kind, mode, way of opening)"
 	parent := e.Dir("W/root")
 	r := e.Rng(18)
-	n := e.Pick(30, 500)
+	n := e.Pick(60, 800)
 	type tc struct {
 		name string
 		ps3  bool
